@@ -1,12 +1,15 @@
+\* X02: the proposed minimal fix for the decision latch (clear restored_in_error when the loop issues a new
+\* install): every property of ExtHandler.cfg plus RollbackCoversEveryInstall.
 SPECIFICATION Spec
 CONSTANTS
-  Handlers = {"h1", "h2"}
-  Seqs = {"1"}
-  Good = {"x0", "h1"}
+  Handlers = {"h1"}
+  Seqs = {"1", "2"}
+  Allowed <- AllCmds
+  Good = {"x0"}
   OsSupported = TRUE
-  SpawnMayFail = FALSE
-  ExternalChange = FALSE
-  ResetDecisionOnInstall = FALSE
+  SpawnMayFail = TRUE
+  ExternalChange = TRUE
+  ResetDecisionOnInstall = TRUE
   Threshold = 2
   MaxCount = 2
   GhostCap = 3
@@ -14,6 +17,7 @@ INVARIANTS
   TypeOK
   UpdateTagLifecycle
   UnsupportedOsOnlyReports
+  RollbackCoversEveryInstall
 PROPERTIES
   StatusForCurrentSeq
   EnableReportsItsSeq
